@@ -119,7 +119,7 @@ import "go.lstv.dev/util/internal"
 //@ pure func skipRun(w bytes) int = leadRun(w, '0', '1', '2', '3', '4', '5', '6', '7', '8', '9', ' ')
 //@ pure func digitRun(w bytes) int = leadRun(w, '0', '1', '2', '3', '4', '5', '6', '7', '8', '9')
 //@ pure func stopOK(w bytes) bool = skipRun(w) == len(w) || (w[skipRun(w)] < 128 && (w[skipRun(w)] != '_' || dcount(w, skipRun(w)) == 0))
-//@ pure func trimmed(w bytes, q int) bytes = ite(q < len(w) && w[len(w)-1] == ' ', w[q:len(w)-1], w[q:])
+//@ pure func trimmed(w bytes, q int) bytes = w[q:len(w)-trailRun(w[q:len(w)], ' ')]
 //@ func prepareNumber
 //@   pure
 //@   ensures [C08.prep] forall i in 0..len(number) :: isDigit(number[i])
@@ -654,6 +654,74 @@ func shapeJSONString(s Size) (b []byte) {
 func shapeJSONObject(s Size) (b []byte) {
 	b, _ = s.MarshalJSON()
 	return b
+}
+
+// ---- C08: spaces around the whole text are ignored (shown for up to two spaces on either side of a rendering) ----------
+//@ pure func spaces(k int) bytes = ite(k <= 0, "", ite(k == 1, " ", "  "))
+//@ pure func padded(s Size, lead int, trail int) bytes = spaces(lead) ++ decText(shVal(uint64(s))) ++ " " ++ binUnit(shExp(uint64(s))) ++ spaces(trail)
+//@ func lemmaPaddedShape
+//@   lemma
+//@   requires 0 <= lead && lead <= 2 && 0 <= trail && trail <= 2 && t == padded(s, lead, trail)
+//@   ensures [C08.spaces] skipRun(t) == lead + nDigits(shVal(uint64(s))) + 1 && stopOK(t) && len(t) <= 30
+//@   ensures [C08.spaces] dcount(t, skipRun(t)) == nDigits(shVal(uint64(s)))
+//@   ensures [C08.spaces] forall k in 0..20 :: k < nDigits(shVal(uint64(s))) ==> dcount(t, lead+k) == k && t[lead+k] == decText(shVal(uint64(s)))[k]
+//@   ensures [C08.spaces] t[skipRun(t):len(t)-trail] == binUnit(shExp(uint64(s))) && forall i in len(t)-trail..len(t) :: t[i] == ' '
+//@   split nd: nDigits(shVal(uint64(s))) == 1
+//@   split nd: nDigits(shVal(uint64(s))) == 2
+//@   split nd: nDigits(shVal(uint64(s))) == 3
+//@   split nd: nDigits(shVal(uint64(s))) == 4
+//@   split nd: nDigits(shVal(uint64(s))) == 5
+//@   split nd: nDigits(shVal(uint64(s))) == 6
+//@   split nd: nDigits(shVal(uint64(s))) == 7
+//@   split nd: nDigits(shVal(uint64(s))) == 8
+//@   split nd: nDigits(shVal(uint64(s))) == 9
+//@   split nd: nDigits(shVal(uint64(s))) == 10
+//@   split nd: nDigits(shVal(uint64(s))) == 11
+//@   split nd: nDigits(shVal(uint64(s))) == 12
+//@   split nd: nDigits(shVal(uint64(s))) == 13
+//@   split nd: nDigits(shVal(uint64(s))) == 14
+//@   split nd: nDigits(shVal(uint64(s))) == 15
+//@   split nd: nDigits(shVal(uint64(s))) == 16
+//@   split nd: nDigits(shVal(uint64(s))) == 17
+//@   split nd: nDigits(shVal(uint64(s))) == 18
+//@   split nd: nDigits(shVal(uint64(s))) == 19
+//@   split nd: nDigits(shVal(uint64(s))) == 20
+//@ func lemmaC08Padded
+//@   lemma
+//@   requires 0 <= lead && lead <= 2 && 0 <= trail && trail <= 2 && t == padded(s, lead, trail)
+//@   requires MaxInputLength == 0 || MaxInputLength >= 41
+//@   requires DefaultRule&RuleDisableUnit == 0
+//@   ensures [C08.spaces] err == nil && got == s
+//@   split nd: nDigits(shVal(uint64(s))) == 1
+//@   split nd: nDigits(shVal(uint64(s))) == 2
+//@   split nd: nDigits(shVal(uint64(s))) == 3
+//@   split nd: nDigits(shVal(uint64(s))) == 4
+//@   split nd: nDigits(shVal(uint64(s))) == 5
+//@   split nd: nDigits(shVal(uint64(s))) == 6
+//@   split nd: nDigits(shVal(uint64(s))) == 7
+//@   split nd: nDigits(shVal(uint64(s))) == 8
+//@   split nd: nDigits(shVal(uint64(s))) == 9
+//@   split nd: nDigits(shVal(uint64(s))) == 10
+//@   split nd: nDigits(shVal(uint64(s))) == 11
+//@   split nd: nDigits(shVal(uint64(s))) == 12
+//@   split nd: nDigits(shVal(uint64(s))) == 13
+//@   split nd: nDigits(shVal(uint64(s))) == 14
+//@   split nd: nDigits(shVal(uint64(s))) == 15
+//@   split nd: nDigits(shVal(uint64(s))) == 16
+//@   split nd: nDigits(shVal(uint64(s))) == 17
+//@   split nd: nDigits(shVal(uint64(s))) == 18
+//@   split nd: nDigits(shVal(uint64(s))) == 19
+//@   split nd: nDigits(shVal(uint64(s))) == 20
+
+func lemmaPaddedShape(t []byte, s Size, lead, trail int) {}
+
+func lemmaC08Padded(t []byte, s Size, lead, trail int) (got Size, err error) {
+	lemmaPaddedShape(t, s, lead, trail)
+	number, _ := prepareNumber(string(t))
+	v, _ := s.Shorten()
+	internal.LemmaParseFormat([]byte(number), v)
+	err = got.UnmarshalText(t)
+	return got, err
 }
 
 type verifDerived int16
